@@ -3,6 +3,7 @@
 TL = "src/cpp/thread-link.cpp"
 UH = "src/cpp/undo-history.cpp"
 AU = "src/cpp/automations.cpp"
+PS = "include/rtosc/port-sugar.h"
 MUTANTS = [
  dict(id="C06", name="publish_before_copy", edits=[(TL,
   """    const off_t  next_write = (ring->write + len)%ring->size;
@@ -102,4 +103,43 @@ MUTANTS = [
  dict(id="C19", name="gain_range_halved", edits=[(AU, "    float range  = (mx-mn)*au.map.gain/100.0;", "    float range  = (mx-mn)*au.map.gain/200.0;")]),
  dict(id="C19", name="toggle_sent_as_int", edits=[(AU, 'rtosc_message(msg, 256, path, v == 1.0 ? "T" : "F");', 'rtosc_message(msg, 256, path, "i", v == 1.0 ? 1 : 0);')]),
  dict(id="C19", name="second_sub_not_driven", edits=[(AU, "    for(int i=0; i<per_slot; ++i)\n        setSlotSub(slot_id, i, value);", "    for(int i=0; i<1; ++i)\n        setSlotSub(slot_id, i, value);")]),
+
+ # ---- C14 parameter ports
+ dict(id="C14", name="float_undo_cast_to_int", edits=[(PS, "data.loc, (decltype(var))(getcode), var); setcode;", "data.loc, static_cast<int>(getcode), var); setcode;")]),
+ dict(id="C15", name="e2e_float_undo_cast_to_int", edits=[(PS, "data.loc, (decltype(var))(getcode), var); setcode;", "data.loc, static_cast<int>(getcode), var); setcode;")]),
+ dict(id="C14", name="min_clamp_sets_max", edits=[(PS, "        var = (decltype(var)) convert(prop[\"min\"]);\\", "        var = (decltype(var)) convert(prop[\"max\"]);\\")]),
+ dict(id="C14", name="max_clamp_missing", edits=[(PS, "    if(prop[\"max\"] && var > (decltype(var)) convert(prop[\"max\"])) \\", "    if(0 && prop[\"max\"] && var > (decltype(var)) convert(prop[\"max\"])) \\")]),
+ dict(id="C14", name="undo_event_when_unchanged", edits=[(PS, "#define rCAPPLY(getcode, t, setcode) if((decltype(var))(getcode) != var) data.reply", "#define rCAPPLY(getcode, t, setcode) if(1) data.reply")]),
+ dict(id="C14", name="undo_old_new_swapped", edits=[(PS, "data.loc, (decltype(var))(getcode), var); setcode;", "data.loc, var, (decltype(var))(getcode)); setcode;")]),
+ dict(id="C14", name="float_bounds_parsed_as_int", edits=[(PS, """            rTYPE(name) var = rtosc_argument(msg, 0).f; \\
+            rLIMIT(var, atof) \\""", """            rTYPE(name) var = rtosc_argument(msg, 0).f; \\
+            rLIMIT(var, atoi) \\""")]),
+ dict(id="C14", name="toggle_no_broadcast", edits=[(PS, """            if(obj->name != rtosc_argument(msg, 0).T) { \\
+                data.broadcast(loc, args);\\
+                obj->name = rtosc_argument(msg, 0).T; \\""", """            if(obj->name != rtosc_argument(msg, 0).T) { \\
+                obj->name = rtosc_argument(msg, 0).T; \\""")]),
+ dict(id="C14", name="string_truncated_one_short", edits=[(PS, "            strncpy(obj->name, rtosc_argument(msg, 0).s, length-1); \\\n            obj->name[length-1] = '\\0'; \\", "            strncpy(obj->name, rtosc_argument(msg, 0).s, length-2); \\\n            obj->name[length-2] = '\\0'; \\")]),
+ dict(id="C14", name="float_array_writes_element_0", edits=[(PS, "            rAPPLY(name[idx], f) \\", "            rAPPLY(name[0], f) \\")]),
+ dict(id="C14", name="option_symbol_off_by_one", edits=[("src/cpp/ports.cpp", "        result = atoi(m.title+4);\n        break;", "        result = atoi(m.title+4)+1;\n        break;")]),
+ dict(id="C14", name="int_query_replies_plus_one", edits=[(PS, """            data.reply(loc, "i", obj->name); \\
+        } else { \\
+            rTYPE(name) var = rtosc_argument(msg, 0).i; \\
+            rLIMIT(var, atoi) \\
+            rAPPLY(name, i) \\""", """            data.reply(loc, "i", obj->name+1); \\
+        } else { \\
+            rTYPE(name) var = rtosc_argument(msg, 0).i; \\
+            rLIMIT(var, atoi) \\
+            rAPPLY(name, i) \\""")]),
+ dict(id="C14", name="char_param_not_clamped", edits=[(PS, """            rTYPE(name) var = rtosc_argument(msg, 0).i; \\
+            rLIMIT(var, atoi) \\
+            rAPPLY(name, c) \\""", """            rTYPE(name) var = rtosc_argument(msg, 0).i; \\
+            rAPPLY(name, c) \\""")]),
+ dict(id="C14", name="option_int_not_clamped", edits=[(PS, """                    rtosc_argument(msg, 0).i; \\
+                rLIMIT(var, atoi) \\
+                rCAPPLY(getcode, i, setcode) \\""", """                rtosc_argument(msg, 0).i; \\
+                rCAPPLY(getcode, i, setcode) \\""")]),
+ dict(id="C14", name="broadcast_old_value", edits=[(PS, """            rAPPLY(name, f) \\
+            data.broadcast(loc, "f", obj->name);\\""", """            data.broadcast(loc, "f", obj->name);\\
+            rAPPLY(name, f) \\""")]),
+ dict(id="C14", name="array_toggle_index_shifted", edits=[(PS, "            obj->name[idx] = rtosc_argument(msg, 0).T; \\\n        } rBOILS_END\n\n#define rArrayTCbMember", "            obj->name[idx ? idx-1 : 0] = rtosc_argument(msg, 0).T; \\\n        } rBOILS_END\n\n#define rArrayTCbMember")]),
 ]
